@@ -208,3 +208,146 @@ def mon_nothing_skipped(ctx, res):
         if list(after) == list(before):
             yield (f'{kind}:{e.note}:swap-ignored',
                    f'{_case_str(case)} on {_fmt(before)}: nothing happened and nothing was reported')
+
+
+# ================================================================ C03
+def _frame(elem, drop):
+    """Node tuple of elem with the elements whose id() is in `drop` (and their tails) removed."""
+    kids = tuple(_frame(c, drop) for c in elem if id(c) not in drop)
+    return (elem.tag, tuple(sorted(elem.attrib.items())), tree._norm(elem.text), tree._norm(elem.tail), kids)
+
+
+def _ids_eq(sv_list, ids):
+    return [s for s in sv_list if s.id is not None and s.id != '' and s.id in ids]
+
+
+def _named_sets(ctx):
+    """-> (drop_before, drop_after, moved_pairs) as sets of id(element) in the before / after
+    trees, per DESIGN Appendix A; moved_pairs = [(label, elem_before, elem_after)] for elements
+    that may change position but not content."""
+    from .harnesses import meta_key_of, meta_key_tuple
+    case = ctx.case
+    kind = case['kind']
+    bv, av = ctx.view, ctx.after_view
+    db, da, moved = set(), set(), []
+
+    def real(ids):
+        return {i for i in ids if i not in (BLANK, ABSENT)}
+
+    if ctx.level == 'story':
+        before_ids = set(bv.story_ids)
+        named, carried, movers = set(), set(), set()
+        if kind in ('StoryAppend', 'StoryInsert', 'EAStoryInsert'):
+            carried = {p[0] for p in case['payload']} - before_ids
+        elif kind in ('StoryReplace', 'EAStoryReplace'):
+            if case['tgt'] in before_ids:
+                named = {case['tgt']}
+                carried = {p[0] for p in case['payload']}
+        elif kind == 'StorySend':
+            if case['sid'] in before_ids:
+                named = carried = {case['sid']}
+        elif kind in ('StoryDelete', 'EAStoryDelete'):
+            named = real(case['srcs']) & before_ids
+        elif kind == 'StoryMove':
+            movers = real([case['src']]) & before_ids
+        elif kind in ('EAStoryMove', 'EAStorySwap'):
+            movers = real(case['srcs']) & before_ids
+        for s in bv.stories:
+            if s.id in named or s.id in movers:
+                db.add(id(s.elem))
+        for s in av.stories:
+            if s.id in named or s.id in carried or s.id in movers:
+                da.add(id(s.elem))
+        for m in sorted(movers):
+            b, a = bv.story(m), av.story(m)
+            if b is not None and a is not None:
+                moved.append((f'story {m}', b.elem, a.elem))
+            elif b is not None:
+                moved.append((f'story {m}', b.elem, None))
+    elif ctx.level == 'item':
+        sb = ctx.addressed
+        if sb is not None:
+            sa = av.story(sb.id)
+            before_ids = set(sb.item_ids)
+            named, carried, movers = set(), set(), set()
+            if kind in ('ItemInsert', 'EAItemInsert'):
+                carried = {p[0] for p in case['payload']}
+            elif kind in ('ItemReplace', 'EAItemReplace'):
+                if case['tgt'] in before_ids:
+                    named = {case['tgt']}
+                    carried = {p[0] for p in case['payload']}
+            elif kind in ('ItemDelete', 'EAItemDelete'):
+                named = real(case['srcs']) & before_ids
+            elif kind in ('ItemMoveMultiple', 'EAItemMove', 'EAItemSwap'):
+                movers = real(case['srcs']) & before_ids
+            for k in sb.kids:
+                if k[0] == 'item' and (k[1] in named or k[1] in movers):
+                    db.add(id(k[2]))
+            if sa is not None:
+                for k in sa.kids:
+                    if k[0] == 'item' and (k[1] in named or k[1] in carried or k[1] in movers):
+                        da.add(id(k[2]))
+                for m in sorted(movers):
+                    b = [k[2] for k in sb.kids if k[0] == 'item' and k[1] == m]
+                    a = [k[2] for k in sa.kids if k[0] == 'item' and k[1] == m]
+                    if b:
+                        moved.append((f'item {m} of story {sb.id}', b[0], a[0] if a else None))
+    else:
+        if kind == 'MetaDataReplace':
+            keys = {meta_key_tuple(k) for k in case['elems']}
+            for _, c in bv.meta:
+                if meta_key_of(c) in keys:
+                    db.add(id(c))
+            for _, c in av.meta:
+                if meta_key_of(c) in keys:
+                    da.add(id(c))
+        elif kind == 'RunningOrderReplace':
+            for c in bv.root:
+                if c.tag == 'roCreate':
+                    db.add(id(c))
+            for c in av.root:
+                if c.tag == 'roCreate':
+                    da.add(id(c))
+        elif kind == 'RunningOrderEnd':
+            for c in av.root:
+                if c.tag == 'mosromgrmeta':
+                    da.add(id(c))
+    return db, da, moved
+
+
+def mon_frame(ctx, res):
+    obs = ctx.obs
+    if obs.phase in ('parse-ro', 'parse-msg') and obs.exc:
+        return
+    av = ctx.after_view
+    case = ctx.case
+    kind = case['kind']
+    e = ctx.exp
+    note = e.note if e is not None else ''
+    if av is None or av.base is None:
+        yield (f'{kind}:{note}:unreadable-after', f'{_case_str(case)}: running order unreadable / without roCreate after the merge')
+        return
+    db, da, moved = _named_sets(ctx)
+    fb = _frame(ctx.view.root, db)
+    fa = _frame(av.root, da)
+    res.extra['frames_compared'] += 1
+    if db or da:
+        res.extra['frames_with_named_elements'] += 1
+    else:
+        res.extra['frames_with_nothing_named'] += 1
+    res.by_class[f'{kind}:{note}'] += 1
+    if fb != fa:
+        d = tree.first_diff(fb, fa)
+        what = 'nothing-named' if not db and not da else 'named'
+        yield (f'{kind}:{note}:collateral:{what}',
+               f'{_case_str(case)} on stories {_fmt(ctx.view.story_ids)}: an element the message does not name changed: {d}'
+               f' (story IDs after: {_fmt(av.story_ids)}; exc={obs.exc})')
+        return
+    for label, b, a in moved:
+        if a is None:
+            continue  # a lost element is C01/C02's (multiset) business
+        nb, na = tree.strip_tail(tree.node(b)), tree.strip_tail(tree.node(a))
+        if nb != na:
+            yield (f'{kind}:{note}:moved-element-modified',
+                   f'{_case_str(case)}: {label} may only change position but its content changed: {tree.first_diff(nb, na)}')
+            return
